@@ -56,7 +56,9 @@ P = {
             "shifted across their boundaries; url, method, payload, forwarded names, session lifespan changed); 40% of the histories mix "
             "up to four kinds of mechanisms on the one shared cache; subject ids, tokens, header values and outputs come in different "
             "lengths; each step is derived from an earlier one as identical / other instance / one request component changed (subject, "
-            "attribute, each referenced header, cookie, output, credential) / two values shifted against each other, and every further "
+            "attribute, each referenced header, cookie, output, credential) / two values shifted against each other / a pair for a derivation with OPTIONAL components (two forwarded headers "
+            "or cookies, two values): the second absent and the first value absorbing its name and value, or both present with the name "
+            "moved across the boundary, and every further "
             "instance of a history is used at least twice, and in 45% of the histories the first look-ups are repeated at the end, "
             "after later ones have stored their entries (A B A, A B C A B; subjects, values and tokens of EQUAL length are in the "
             "pools too, so that serialised entries are equally long); every history runs against one shared cache - the REAL in-memory "
